@@ -117,11 +117,15 @@ package gitstore
 //@   trusted
 //@   assigns ghost faults
 //@   ensures err == nil ==> payload == objPayload(objectID) && sig == objSig(objectID)
+//@   # A-errors: dependencies never answer with the policy package's "conditions unmet" sentinel
+//@   ensures !errIs(err, policy.ErrVerifierConditionsUnmet)
 //@   ensures faults == old(faults) + ite(err != nil, 1, 0)
 
 //@ func ext:(pkg/gitstore.Storer).LookupConfig -> (value, ok, err)
 //@   trusted
 //@   assigns ghost faults
+//@   # A-errors: dependencies never answer with the policy package's "conditions unmet" sentinel
+//@   ensures !errIs(err, policy.ErrVerifierConditionsUnmet)
 //@   ensures faults == old(faults) + ite(err != nil, 1, 0)
 
 //@ # ResetDueToError: force-resets the reference and returns the cause (wrapped if the reset itself fails)
